@@ -92,7 +92,7 @@ Qed.
 
 (* the facts about classes are consistent with what the builtin container names denote *)
 Definition sane_names : list pstr :=
-  [s "builtins.list"; s "builtins.tuple"; s "builtins.set"; s "builtins.dict"; s "collections.OrderedDict"].
+  [s "builtins.list"; s "builtins.tuple"; s "builtins.set"; s "builtins.dict"; s "collections.OrderedDict"; s "collections.defaultdict"].
 Definition facts_sane (F : cfacts) : bool :=
   negb (mem (s "builtins.tuple") (f_namedtuples F)) && forallb (fun q => negb (mem q (f_missing F))) sane_names.
 
@@ -999,7 +999,9 @@ Section Share.
         - eapply minR_step; [apply Hm0R; eassumption|eapply sub_child; [exact Hs|left; reflexivity]|exact Hagr].
         - eapply HG_mono; [|exact Hg]. cbn [size v]. lia.
         - cbn [need v] in Hcf. pose proof (Nat.le_max_l (need f) (max_map (fun kv : dkey * pval => need (snd kv)) items)). lia. }
-      rewrite Hma. cbn [bind main]. rewrite Hfb. cbn [bind]. unfold hd. rewrite nid_mkh. reflexivity. }
+      assert (Hgt : gt C hd = Ok (s "collections", s "defaultdict")).
+      { apply gt_ok; [reflexivity|reflexivity|apply lit_ne; discriminate|apply lit_ne; discriminate|apply not_missing; cbn; tauto]. }
+      rewrite Hma. cbn [bind main]. rewrite Hfb. cbn [bind]. rewrite Hgt. cbn [bind]. unfold hd. rewrite nid_mkh. reflexivity. }
     unfold Res. cbn [node_slot notleaf]. repeat split.
     - eapply mono_trans; [apply mono_cons|]. eapply mono_trans; eauto.
     - intros h Hh. cbn [flat_map ids]. rewrite !app_nil_r. destruct (Hbgr h Hh) as [H|H].
